@@ -44,7 +44,7 @@ def c20_docs(draw):
         doc = draw(docs.documents(max_subnets=4, max_size=2, max_hosts=6, extras=False, wide=0))
     else:
         # permissive single-service scenario on a random tree (+ extra edges): isolates the topology
-        n = draw(st.integers(2, 5))
+        n = draw(st.integers(2, 6))
         sizes = [1] * n
         if draw(st.booleans()):
             sizes[draw(st.integers(0, n - 1))] = 2
@@ -53,9 +53,17 @@ def c20_docs(draw):
         for i in range(N):
             topo[i][i] = 1
         topo[0][1] = topo[1][0] = 1
+        template = draw(st.sampled_from(["random", "random", "branches", "branches", "star", "chain"]))
         for i in range(2, N):
-            lo = 0 if draw(st.integers(0, 5)) == 0 else 1
-            p = draw(st.integers(lo, i - 1))
+            if template == "branches":
+                p = 1 if i <= 3 else i - 2            # 1-2-4-6.., 1-3-5-7..: branches of equal depth behind the public subnet
+            elif template == "star":
+                p = 1
+            elif template == "chain":
+                p = i - 1
+            else:
+                lo = 0 if draw(st.integers(0, 5)) == 0 else 1
+                p = draw(st.integers(lo, i - 1))
             topo[i][p] = topo[p][i] = 1
         for i in range(1, N):
             for j in range(i + 1, N):
@@ -68,7 +76,13 @@ def c20_docs(draw):
         pes = {"pe": dict(process="tomcat", os="none", prob=1.0, cost=1, access="root")}
         hc = {a: dict(os="linux", services=["ssh"], processes=["tomcat"], value=1) for a in addrs}
         k = draw(st.integers(1, min(3, len(addrs))))
-        sens_addrs = draw(st.lists(st.sampled_from(addrs), min_size=k, max_size=k, unique=True))
+        if template in ("branches", "star") and draw(st.booleans()):
+            # sensitive hosts in the leaves
+            leaves = [a for a in addrs if sum(topo[a[0]][1:]) == 2 and a[0] != 1] or addrs
+            k = min(k + 1, len(leaves), 3)
+            sens_addrs = draw(st.lists(st.sampled_from(leaves), min_size=k, max_size=k, unique=True))
+        else:
+            sens_addrs = draw(st.lists(st.sampled_from(addrs), min_size=k, max_size=k, unique=True))
         sens = {a: draw(st.sampled_from([100, 10, 1])) for a in sens_addrs}
         for a in sens_addrs:
             del hc[a]["value"]
@@ -384,6 +398,33 @@ STAR = dict(
     firewall={(0, 1): ["ssh"], (1, 0): ["ssh"], (1, 2): ["ssh"], (2, 1): ["ssh"], (1, 3): ["ssh"], (3, 1): ["ssh"]})
 
 
+def tight_doc(edges, n, sensitive):
+    """tight-corner scenario on a given subnet graph: one host per subnet, cost-1 ROOT exploit,
+    hop hosts worth exactly 1, no discovery values"""
+    N = n + 1
+    topo = [[1 if i == j else 0 for j in range(N)] for i in range(N)]
+    for a, b in edges:
+        topo[a][b] = topo[b][a] = 1
+    hc = {(s_, 0): dict(os="linux", services=["ssh"], processes=["tomcat"]) for s_ in range(1, N)}
+    for a in hc:
+        if a not in sensitive:
+            hc[a]["value"] = 1
+    fw = {(i, j): ["ssh"] for i in range(N) for j in range(N) if i != j and topo[i][j]}
+    return dict(subnets=[1] * n, topology=topo, sensitive_hosts=dict(sensitive), os=["linux"], services=["ssh"],
+                processes=["tomcat"], exploits={"e": dict(service="ssh", os="none", prob=1.0, cost=1, access="root")},
+                privilege_escalation={}, service_scan_cost=1, os_scan_cost=1, subnet_scan_cost=1, process_scan_cost=1,
+                host_configurations=hc, firewall=fw)
+
+
+CORPUS = [
+    ("two-branches", tight_doc([(0, 1), (1, 2), (1, 3), (2, 4), (3, 5)], 5, {(4, 0): 10, (5, 0): 10})),
+    ("h-shape", tight_doc([(0, 1), (1, 2), (2, 3), (2, 4), (4, 5), (4, 6)], 6, {(3, 0): 10, (5, 0): 10, (6, 0): 10})),
+    ("chain", tight_doc([(0, 1), (1, 2), (2, 3), (3, 4)], 4, {(4, 0): 10, (2, 0): 10})),
+    ("two-public", tight_doc([(0, 1), (0, 4), (1, 2), (2, 3), (3, 4)], 4, {(2, 0): 10, (3, 0): 10})),
+    ("star-3", tight_doc([(0, 1), (1, 2), (1, 3), (1, 4)], 4, {(2, 0): 10, (3, 0): 10, (4, 0): 10})),
+]
+
+
 def main(tier, replay_path=None):
     rep = Reporter(PID, tier, RULE, assumptions=[
         "discovery values are >= 0 (documented as the value of discovering a host)",
@@ -400,10 +441,12 @@ def main(tier, replay_path=None):
             return 1
         return 0
     run_source({"kind": "doc", "doc": STAR}, rep)          # regression corpus: the repaired star topology
+    for name, doc in CORPUS:                               # structurally distinct tight-corner topologies
+        run_source({"kind": "doc", "doc": doc}, rep)
     for name in sources.shipped_names():
         run_source({"kind": "shipped", "name": name}, rep)
     nshards = 16 if tier == "thorough" else 8
-    total = 16 * 5000 if tier == "thorough" else 1600
+    total = 16 * 5000 if tier == "thorough" else 1280
     for part in engine.run_shards(_shard, nshards, common.verif_seed(), tier=tier, n_cases=total // nshards):
         rep.merge(part)
     docs.cleanup()
